@@ -288,11 +288,32 @@ def check_state_change(ctx):
     ctx.expect(paths, ret=2)
 
 
+def check_state_recreate(ctx):
+    install_exc(ctx.eng)
+    ctx.eng.max_strlen = 64
+    x = ctx.sym("x", 32)
+    paths = ctx.run("k_state_recreate", [x])
+    for q in paths:
+        if q.status != "ret":
+            ctx.fail(q, "ended %s %s" % (q.status, q.info))
+            continue
+        lg = q.user.get("log") or []
+        A = conc([e for e in lg if e[0] == 24][0][1])
+        seq = [("in" if e[0] == 50 else "out", conc(e[1]), conc(e[3])) for e in lg if e[0] in (50, 51)]
+        want = [("in", INVOKE, A), ("out", CALLBACK, A), ("in", CALLBACK, A), ("out", INVOKE, A)]
+        fin = [e for e in lg if e[0] == 26]
+        ctx.require(q, z3.BoolVal(seq == want and bool(fin) and conc(fin[0][1]) == A),
+                    "the transition state installed on a sandbox object is carried by the notifications of its next incarnation (got %s)" % (seq,))
+    ctx.only(paths, "ret")
+    ctx.expect(paths, ret=1)
+
+
 def jobs(tier, seed):
     from specs.C13 import NOOP, DYLIB
     two = [Job("C19_noop_two", NOOP + '#include "C19_two.inc"\n', [dict(name="noop two sandboxes, nested visit may abort", fn=check_two_tree, unwind=400),
                                                                      dict(name="noop transition state replaced during an invocation", fn=check_state_change, unwind=400),
-                                                                     dict(name="noop void sandbox functions", fn=check_void_invoke, unwind=400)], native=False,
+                                                                     dict(name="noop void sandbox functions", fn=check_void_invoke, unwind=400),
+                                                                     dict(name="noop transition state across destroy + create", fn=check_state_recreate, unwind=400)], native=False,
                flags=["-D_GLIBCXX_EXTERN_TEMPLATE=0"]),
            Job("C19_dylib_two", DYLIB + '#include "C19_two.inc"\n', [dict(name="dylib two sandboxes, nested visit may abort", fn=check_two_tree, unwind=400)], native=False,
                flags=["-D_GLIBCXX_EXTERN_TEMPLATE=0"])]
